@@ -48,7 +48,7 @@ class NL:
         s = [f'i{k}' for k in range(self.n_in)]
         for k, (kind, _) in enumerate(self.states):
             s.append(f'q{k}')
-            if kind == 'dff': s.append(f'n{k}')
+            if 'dff' in kind.lower(): s.append(f'n{k}')
         s += [f'g{k}' for k in range(len(self.gates))]
         return s
 
@@ -72,7 +72,7 @@ class NL:
         for k in range(self.n_in): v[f'i{k}'] = in_vals[k] & mask
         for k, (kind, _) in enumerate(self.states):
             v[f'q{k}'] = st_vals[k] & mask
-            if kind == 'dff': v[f'n{k}'] = ~st_vals[k] & mask
+            if 'dff' in kind.lower(): v[f'n{k}'] = ~st_vals[k] & mask
         for k in self.gate_order():
             kind, ops = self.gates[k]
             v[f'g{k}'] = ref.gate2(kind, [None if o is None else v[o] for o in ops], mask)
@@ -85,7 +85,7 @@ class NL:
         for k in range(self.n_in): v[f'i{k}'] = in_vals[k]
         for k, (kind, _) in enumerate(self.states):
             v[f'q{k}'] = st_vals[k]
-            if kind == 'dff': v[f'n{k}'] = ref.table8('inv', 1)[st_vals[k]]
+            if 'dff' in kind.lower(): v[f'n{k}'] = ref.table8('inv', 1)[st_vals[k]]
         for k in self.gate_order():
             kind, ops = self.gates[k]
             v[f'g{k}'] = ref.gate8(kind, [None if o is None else v[o] for o in ops], shape=shape)
@@ -178,7 +178,7 @@ def build(nl, style=STYLES[0], io_order='in_out'):
         t, k = sig[0], int(sig[1:])
         if t == 'i': return b.in_nodes[k], None      # pin decided below
         if t == 'g': return b.gate_nodes[k], 0
-        if t == 'q': return b.st_nodes[k], (0 if nl.states[k][0] == 'dff' else None)
+        if t == 'q': return b.st_nodes[k], (0 if 'dff' in nl.states[k][0].lower() else None)
         if t == 'n': return b.st_nodes[k], 1
         raise KeyError(sig)
 
